@@ -35,6 +35,33 @@ RADICALS = ['[CH3] |^1:0|', 'C[CH2] |^1:1|', '[O][O] |^1:0,1|', '[Na]', '[Na] |^
             '[Cl] |^1:0|', '[Cu]', '[Cu] |^1:0|']
 
 
+_TWINS = []
+
+
+def asym_twin_pool():
+    """pairs (a, d) of molecules of one species M1-X-M2 with the SAME SMILES text, the radical on M1 in a and on M2 in d,
+    and d's atoms stored in the opposite order (parsed from the reverse spelling): their radical flags differ along the
+    written SMILES order but coincide in atom-storage order.  Found by trying metal / linker combinations."""
+    if _TWINS:
+        return _TWINS
+    from chython import smiles
+    metals = ['Mg', 'Ag', 'Li', 'Na', 'K', 'Cu', 'Zn', 'Ca']
+    for m1 in metals:
+        for m2 in metals:
+            if m1 == m2:
+                continue
+            for x in ('O', 'S', 'C', 'N'):
+                try:
+                    a = smiles(f'[{m1}]{x}[{m2}] |^1:0|')
+                    d = smiles(f'[{m2}]{x}[{m1}] |^1:0|')
+                    fa, fd = fmol_of(a, ''), fmol_of(d, '')
+                except Exception:
+                    continue
+                if fa[0] == fd[0] and fa[2] != fd[2] and [at.is_radical for _, at in a.atoms()] == [at.is_radical for _, at in d.atoms()]:
+                    _TWINS.append((f'[{m1}]{x}[{m2}] |^1:0|', f'[{m2}]{x}[{m1}] |^1:0|'))
+    return _TWINS
+
+
 class Rxn:
     """one generated reaction: the chython object, the two mapped sides and the changes made, kept in plain dicts"""
 
@@ -179,10 +206,18 @@ def gen_reaction(rng, pool, idx):
         reactants, products = [], []
     if rng.random() < 0.15:
         # extra radicals / twins that differ in radical state only, inside one role
-        a, bb = smiles('[Na]'), smiles('[Na] |^1:0|')
-        a.remap({1: top})
-        bb.remap({1: top + 1})
-        top += 2
+        if rng.random() < 0.5 and asym_twin_pool():
+            # same SMILES text, radical on different atoms, atoms stored in opposite orders
+            sa, sd = rng.choice(asym_twin_pool())
+            a, bb = smiles(sa), smiles(sd)
+            a.remap({1: top, 2: top + 1, 3: top + 2})
+            bb.remap({1: top + 3, 2: top + 4, 3: top + 5})
+            top += 6
+        else:
+            a, bb = smiles('[Na]'), smiles('[Na] |^1:0|')
+            a.remap({1: top})
+            bb.remap({1: top + 1})
+            top += 2
         tw = [a, bb] if rng.random() < 0.5 else [bb, a]
         if rng.random() < 0.5:
             reactants = reactants + tw
@@ -612,6 +647,24 @@ def search_directed(ck):
             x = Rxn()
             x.rxn, x.desc, x.truth = r, {'idx': 'directed:' + s}, None
             search_roundtrip(ck, x)
+    # one species, the radical on different atoms, atoms stored in opposite orders: the sort must go by the flags along the
+    # WRITTEN atom order (storage-order flags coincide)
+    d0 = smiles('C')
+    for sa, sd in asym_twin_pool()[: (6 if ck.tier == 'quick' else 60)]:
+        for where in (0, 1, 2):
+            tw = [smiles(sa), smiles(sd)]
+            tw[1].remap({1: 4, 2: 5, 3: 6})
+            d1 = d0.copy()
+            d1.remap({1: 7})
+            roles = [[d1], [], [d1.copy()]]
+            roles[where] = roles[where] + tw if where != 1 else tw
+            x = Rxn()
+            x.rxn = ReactionContainer(roles[0], roles[2], roles[1])
+            x.desc = {'idx': f'asym-twins:{where}:{sa}:{sd}'}
+            x.truth = None
+            ck.count('search:order-free:asymmetric radical twins')
+            search_order_free(ck, x, random.Random(0))
+            search_roundtrip(ck, x)
     # molecules that differ in radical state only, within one role
     a, c, d = smiles('[Na]'), smiles('[Na] |^1:0|'), smiles('C')
     for twins in ([a, c], [c, a], [a, c, a.copy()], [c, a, c.copy()]):
@@ -940,6 +993,8 @@ def corr_writer(ck, rxns):
         ties = any(a[0] == c[0] and a[2] != c[2] for role in fm for a, c in itertools.combinations(role, 2))
         if ties:
             ck.count('writer:same SMILES, different radicals within a role')
+        if any(a[0] == c[0] and a[2] != c[2] and sum(a[2]) == sum(c[2]) for role in fm for a, c in itertools.combinations(role, 2)):
+            ck.count('writer:same SMILES, radical on different atoms within a role')
         # one molecule-level format option per reaction (different molecule strings and atom orders)
         sp = rng.choice(SPECS_MOL) + rng.choice(['', '', '!c', '!x'])
         try:
